@@ -32,7 +32,14 @@ type taken struct {
 	at    *ssa.BasicBlock
 }
 
+// note is one entry of a path's ordered log: a selected instruction, or a branch decision.
+type note struct {
+	in ssa.Instruction
+	ev *taken
+}
+
 type pathState struct {
+	notes      []note
 	fieldFacts map[string]nilState // facts about x.f that hold for every load of that field until it is stored to
 	depth      int
 	events     []taken
@@ -59,6 +66,7 @@ func (p *pathState) clone() *pathState {
 	}
 	q.trace = append([]*ssa.BasicBlock{}, p.trace...)
 	q.events = append([]taken{}, p.events...)
+	q.notes = append([]note{}, p.notes...)
 	q.fieldFacts = map[string]nilState{}
 	for k, v := range p.fieldFacts {
 		q.fieldFacts[k] = v
@@ -267,6 +275,7 @@ func walkPathsInit(fn *ssa.Function, init map[ssa.Value]nilState, want func(ssa.
 				}
 			}
 			if want(in) {
+				p.notes = append(p.notes, note{in: in})
 				visit(p, in)
 			}
 		}
@@ -319,6 +328,7 @@ func walkPathsInit(fn *ssa.Function, init map[ssa.Value]nilState, want func(ssa.
 						ec, et = u.X, !et
 					}
 					q.events = append(q.events, taken{ec, et, b})
+					q.notes = append(q.notes, note{ev: &taken{ec, et, b}})
 				}
 				if isNT {
 					isNil := nilIfTrue == (i == 0)
